@@ -185,6 +185,69 @@ class Flow:
             elif e[0] == "downcast":
                 fields.add("as:" + e[1])
 
+    def resolve(self, place, depth=0):
+        """field-sensitive look-through of single-definition temporaries: `(a, b).1` is b, a copy of a place is that place, `&*p` is p.
+        Returns the place (list) the given place stands for, as far as that can be told by reading definitions only."""
+        place = list(place)
+        while depth < 24:
+            depth += 1
+            base = place[0]
+            ds = self.defs.get(base, [])
+            proj = place[1:]
+            if len(ds) > 1 and len(proj) >= 2 and proj[0][0] == "downcast" and not (1 <= base <= self.body["argc"]):
+                # `_0 = Ok(x)` on one path, `_0 = Err(e)` on another: `(_0 as Ok).0` can only be the x
+                vd = [d for d in ds if d[0] == "assign" and not d[3] and d[2][0] == "aggregate" and d[2][1].get("k") == "adt"]
+                if len(vd) == len(ds):
+                    ds = [d for d in vd if d[2][1].get("variant") == proj[0][1]]
+            if len(ds) != 1 or (1 <= base <= self.body["argc"]) or ds[0][0] != "assign" or ds[0][3]:
+                return place
+            rv = ds[0][2]
+            if rv[0] == "use" and rv[1][0] in ("copy", "move"):
+                place = list(rv[1][1]) + proj
+                continue
+            if rv[0] == "ref" and proj and proj[0][0] == "deref":
+                place = list(rv[1]) + proj[1:]
+                continue
+            if rv[0] == "cast" and rv[1] == "IntToInt" and not proj and rv[2][0] in ("copy", "move"):
+                place = list(rv[2][1])          # `n as usize`: the same number as far as its role is concerned
+                continue
+            if rv[0] == "aggregate" and proj and proj[0][0] == "field" and rv[1].get("k") in ("tuple", "adt", "array", "closure") and proj[0][1] < len(rv[2]) \
+                    and rv[2][proj[0][1]][0] in ("copy", "move"):
+                place = list(rv[2][proj[0][1]][1]) + proj[1:]
+                continue
+            if rv[0] == "aggregate" and len(proj) >= 2 and proj[0][0] == "downcast" and proj[1][0] == "field" and rv[1].get("k") == "adt" and \
+                    rv[1].get("variant") == proj[0][1] and proj[1][1] < len(rv[2]) and rv[2][proj[1][1]][0] in ("copy", "move"):
+                place = list(rv[2][proj[1][1]][1]) + proj[2:]
+                continue
+            return place
+        return place
+
+    def root_call(self, place, through=("branch", "deref", "as_ref", "borrow", "clone", "as_bytes", "as_slice", "into", "from", "unwrap", "expect")):
+        """the one call whose result the place (field-sensitively) stands for, looking through the transparent calls in `through`:
+        -> (block, terminator) or None"""
+        place = list(place)
+        for _ in range(12):
+            r = self.resolve(place)
+            ds = self.defs.get(r[0], [])
+            if len(ds) == 1 and ds[0][0] == "assign" and not ds[0][3] and ds[0][2][0] == "ref" and not (1 <= r[0] <= self.body["argc"]):
+                # a reference stands for what it refers to
+                place = list(ds[0][2][1]) + [e for e in r[1:] if e[0] != "deref"]
+                continue
+            if len(ds) != 1 or ds[0][0] != "call" or (1 <= r[0] <= self.body["argc"]):
+                return None
+            t = ds[0][2]
+            if last_seg(callee_name(t)) in through and t["args"] and t["args"][0][0] in ("copy", "move"):
+                rest = []
+                if last_seg(callee_name(t)) == "branch" and len(r) >= 3 and r[1][0] == "downcast" and r[1][1] == "Continue" and r[2][0] == "field":
+                    # `x?`: the Continue payload is the Ok / Some payload of x
+                    aty = self.body["locals"][t["args"][0][1][0]]["s"]
+                    vn = "Ok" if aty.startswith("std::result::Result<") else "Some"
+                    rest = [["downcast", vn, 0 if vn == "Ok" else 1], ["field", 0, "0"]] + r[3:]
+                place = list(t["args"][0][1]) + rest
+                continue
+            return ds[0][1], t
+        return None
+
     def origin_calls(self, local, **kw):
         return [a for a in self.origins(local, **kw) if a[0] == "call"]
 
